@@ -246,6 +246,8 @@ where
                 if let Some(layout_parser) = layout_parser {
                     log!("\n{}", "*** Parsing layout".paint(WARN_BOLD));
                     let current_state = context.state();
+                    let current_position = context.position();
+                    let current_span = context.span();
                     context.set_state(S::default_layout().unwrap());
                     let p = layout_parser.parse_with_context(context, input);
                     log!("Layout is {p:?}");
@@ -258,6 +260,11 @@ where
                             continue;
                         }
                     }
+                    // No layout here. A layout parser which failed after it
+                    // had shifted some tokens must not leave the context
+                    // behind the input it couldn't parse.
+                    context.set_position(current_position);
+                    context.set_span(current_span);
                 }
                 // At this point we can't recognize any new token at the current position.
                 // This can be Ok if partial parse is configured and STOP is expected.
